@@ -124,5 +124,7 @@ theorem refinesL1 (nt : Bool) (d0 : Nat) : Refines (kindL1 nt d0) (kindSpec true
   indexes := by simp [kindL1, kindSpec, idx1_eq]
   keys := by simp [kindL1, kindSpec, idx1_eq]
   len := rfl
+  resumeIdx := by simp [kindL1, kindSpec, idx1_eq, listResume_eq]
+  resumeKeys := by simp [kindL1, kindSpec, idx1_eq, listResume_eq]
 
 end SLV.MArr
